@@ -161,7 +161,7 @@ def generate(seed: int, tier: str) -> dict:
     if r < 0.85:
         from .props import gen_session_case
 
-        c = gen_session_case("C15", seed, tier, scoped_bias=0.25, fail=True)
+        c = gen_session_case("C15", seed, tier, scoped_bias=0.25, fail=True, multiline_boost=True)
         c["kind"] = "purity"
         c["engine"] = "session"
         return c
